@@ -80,4 +80,5 @@ func c21(r *core.Run) {
 			"an element of an existing bin array is overwritten in place: EachBin/EachBinRev iterate bin snapshots outside the lock and would race")
 	}
 	r.Floor("C21.W1", "methods writing bin elements", nf, 2)
+	psliceRules(r, "C21")
 }
